@@ -37,7 +37,7 @@ def plan(tier):
         "assumptions": ["UNPREDICTABLE instances may be accepted or rejected, but not decoded as a different instruction",
                         "observations of more than `cap` unresolved bits (register lists, 24-bit branch offsets) use a pattern "
                         "alphabet in the 32-bit space"],
-        "deadline_s": 170 if tier == "quick" else 1700,
+        "deadline_s": 400 if tier == "quick" else 1700,
     }
 
 
